@@ -20,8 +20,8 @@ Definition no_escalation (f : ver_flags) (c : create_info) (L : Z) (sender : byt
   (* 1 named thresholds *)
   (forall g, In g named_getters -> g new <> g old -> g new <= L /\ g old <= L)
   (* 2 per-event-type levels *)
-  /\ (forall ty, pl_event_level new ty false <> pl_event_level old ty false ->
-                 pl_event_level new ty false <= L /\ pl_event_level old ty false <= L)
+  /\ (forall ty, pl_event_entry new ty <> pl_event_entry old ty ->
+                 pl_event_entry new ty <= L /\ pl_event_entry old ty <= L)
   (* 3 notification levels, from version 6 *)
   /\ (notif_checked f = true ->
       forall n, pl_notif_level new n <> pl_notif_level old n ->
@@ -44,7 +44,7 @@ Definition fresh_key : bytes := Eval vm_compute in bs "@fresh.key/not-in-any-map
 Definition no_escalation_b (f : ver_flags) (c : create_info) (L : Z) (sender : bytes)
            (old new : pl_content) : bool :=
   forallb (fun g : pl_content -> Z => chg_ok L (g old) (g new)) named_getters
-  && forallb (fun ty => chg_ok L (pl_event_level old ty false) (pl_event_level new ty false))
+  && forallb (fun ty => chg_ok L (pl_event_entry old ty) (pl_event_entry new ty))
              (fresh_key :: tpi_type :: map fst (pl_events old) ++ map fst (pl_events new))
   && (negb (notif_checked f) ||
       forallb (fun n => chg_ok L (pl_notif_level old n) (pl_notif_level new n))
